@@ -14,7 +14,9 @@ def _expected(text: str, i: int) -> Any:
 
 
 def replay_positions(obligation: str = "", model: Optional[Dict[str, str]] = None, desc: str = "", **_: Any) -> Dict[str, Any]:
-    texts = ["x = 1", "x = 1\ny = 2", "x = 1\n\n  \nclass A:\n    b = 3\n", "a=1\nb=2\nc=3"]
+    texts = ["x = 1", "x = 1\ny = 2", "x = 1\n\n  \nclass A:\n    b = 3\n", "a=1\nb=2\nc=3",
+             # the module of a file that begins with empty lines starts on a line break
+             "\nx = 1", "\n\n\nclass A:\n    b = 3\n", "\n"]
     # characters that str.splitlines() treats as line breaks but Python's tokenizer does not
     for ch in ("\x0b", "\x0c", "\x1c", "\x1d", "\x1e", "\x85", "\u2028", "\u2029"):
         texts.append(f'x = "a{ch}b"\ny = 2\nclass A:\n    z = 3')
@@ -26,9 +28,13 @@ def replay_positions(obligation: str = "", model: Optional[Dict[str, str]] = Non
         if len(lc.positions) != len(full):
             return {"confirmed": True, "input": text, "observed": f"{len(lc.positions)} positions for {len(full)} characters"}
         for i, ch in enumerate(full):
-            if ch != "\n" and tuple(lc.positions[i]) != _expected(full, i):
+            if tuple(lc.positions[i]) != _expected(full, i):
                 return {"confirmed": True, "input": text,
                         "observed": f"offset {i} ({ch!r}): positions={lc.positions[i]} expected (line, column)={_expected(full, i)}"}
+        if full:
+            msg = lc.error_message(Error(atok.tree, "m"))
+            if msg != "At line 1 and column 1: m":
+                return {"confirmed": True, "input": text, "observed": f"{msg!r} for an error located at the module"}
         for node in ast.walk(atok.tree):
             if isinstance(node, ast.stmt):
                 msg = lc.error_message(Error(node, "m"))
